@@ -250,6 +250,18 @@ class MCIntegrator:
         self._is_set = False
         self.issuper = self._c_ops[0].issuper
 
+    @property
+    def options(self):
+        return self._options
+
+    @options.setter
+    def options(self, new_options):
+        # The options of the Monte-Carlo layer (``norm_tol``, ...) are read
+        # from this object; those of the ODE integrator are handed on to it.
+        self._options = new_options
+        if new_options is not None:
+            self._integrator.options = new_options
+
     def set_state(self, t, state0, generator,
                   no_jump=False, jump_prob_floor=0.0):
         """
@@ -858,6 +870,10 @@ class MCSolver(MultiTrajSolver):
     @options.setter
     def options(self, new_options: dict[str, Any]):
         MultiTrajSolver.options.fset(self, new_options)
+        # The setter replaces the options object: the integrator reads the
+        # Monte-Carlo options from it at run time.
+        if getattr(self, "_integrator", None) is not None:
+            self._integrator.options = self._options
 
     @classmethod
     def avail_integrators(cls):
